@@ -556,6 +556,10 @@ func runHSx(c hsCfg, toks []string, census bool) string {
 			if r == "timeout" {
 				note = " note=flush-timeout"
 			}
+		case "S":
+			// settle: let the peer act on what it has read (nothing answers a
+			// ping below BIP0031, so there is no flush barrier there)
+			time.Sleep(40 * time.Millisecond)
 		case "pe":
 			send(rawMsg(uint32(btcnet), []byte("ping"), nil, 0, true))
 		case "ps":
